@@ -53,6 +53,12 @@ func runC02(c *ev.Ctx) {
 		default:
 			cc.W, cc.H = 1+r.Intn(24), 1+r.Intn(24)
 		}
+		if i%20 == 7 {
+			// >= 51 macroblocks of which one or two quantise to nothing: header-level decisions that depend
+			// on frame-wide statistics (skip probability, segment map, partition balance)
+			cc.Class, cc.Lossless = pickS(r, "flatpatch", "flatpatch", "flatpatch", "flatblock", "pillarbox"), false
+			cc.W, cc.H = 113+r.Intn(96), 113+r.Intn(96)
+		}
 		if c.Thorough() && i%50 == 0 {
 			cc.W, cc.H = 100+r.Intn(300), 100+r.Intn(300)
 		}
